@@ -18,6 +18,7 @@
   * `empty_roundtrip`  the empty string, written `""`.
 -/
 import GdModel.Token.Escape
+import GdModel.Generated.WriteCode
 namespace GdModel.Props.C07
 open GdModel.Token GdModel.Token.Spec
 
@@ -244,5 +245,60 @@ example : tokenise true (escapeStr [32, 35, 34, 92, 1, 10, 9, 200, 65, 120] ++ [
 example : escapeStr [65, 32, 1] = [65, 92, 32, 92, 120, 48, 49] := by decide
 example : tokenise true ([[108], [32, 34], [200, 7]].flatMap (fun t => escapeStr t ++ [32]) ++ [10])
     = ⟨[[108], [32, 34], [200, 7]], none⟩ := by decide
+
+/-! ### scalar field codes that look like numbers (`_GD_WriteFieldCode`, facts extracted by X6) -/
+
+namespace WriteCode
+open GdModel.Generated
+
+/-- what the format-file parser makes of a scalar parameter token (`_GD_SetScalar`):
+    a number is a literal, anything else a field code -/
+inductive Parsed where
+  | literal
+  | code (c : List Nat)
+  deriving DecidableEq
+
+def parseScalar (isNum : List Nat → Bool) (tok : List Nat) : Parsed :=
+  if isNum tok then .literal else .code tok
+
+def suffixBytes : List Nat := [60, 48, 62]   -- "<0>"
+
+/-- `_GD_WriteFieldCode` for a scalar code without element index, as the extracted
+    facts describe it: the stripped code is written; `<0>` is appended when the
+    variable named `tested` looks like a number -/
+def writeScalar (f : WriteCodeFacts) (strip : List Nat → List Nat) (isNum : List Nat → Bool) (code : List Nat) : List Nat :=
+  let s := strip code
+  let t := if f.tested = f.stripped then s else code
+  if f.guardScalar && f.guardIndex && isNum t then s ++ suffixBytes else s
+
+/-- the facts the round trip needs, checked against the current source -/
+theorem writecode_facts_ok :
+    writeCodeFacts.written = writeCodeFacts.stripped ∧ writeCodeFacts.tested = writeCodeFacts.stripped ∧
+    writeCodeFacts.guardScalar = true ∧ writeCodeFacts.guardIndex = true ∧ writeCodeFacts.suffix = "<0>" := by
+  decide
+
+/-- **A scalar field code is never read back as a number**, whatever the
+    fragment's affixes strip from it: for every stripping function and every
+    notion of "looks like a number" under which nothing ending in `<0>` is a
+    number (true of `_GD_TokToNum`: `>` cannot end a literal). -/
+theorem scalar_code_reads_back_as_code (strip : List Nat → List Nat) (isNum : List Nat → Bool)
+    (hsuf : ∀ s, isNum (s ++ suffixBytes) = false) (code : List Nat) :
+    parseScalar isNum (writeScalar writeCodeFacts strip isNum code) ≠ .literal := by
+  have hf := writecode_facts_ok
+  unfold writeScalar parseScalar
+  simp only [hf.2.1, hf.2.2.1, hf.2.2.2.1, if_true, Bool.true_and]
+  by_cases h : isNum (strip code) = true
+  · simp [h, hsuf]
+  · simp [h]
+
+/-- the mistake of testing the unstripped code: with prefix "A" the code "A10"
+    does not look like a number, what is written ("10") does -/
+example :
+    let bad : WriteCodeFacts := { writeCodeFacts with tested := "code" }
+    parseScalar (fun t => t.all (fun c => 48 ≤ c ∧ c ≤ 57) && !t.isEmpty)
+      (writeScalar bad (fun c => c.drop 1) (fun t => t.all (fun c => 48 ≤ c ∧ c ≤ 57) && !t.isEmpty) [65, 49, 48]) = .literal := by
+  decide
+
+end WriteCode
 
 end GdModel.Props.C07
